@@ -274,7 +274,7 @@ impl Module {
         for (depth, i) in idx.card_index.indices[1..].iter().enumerate() {
             card = card
                 .get_child(*i as usize)
-                .ok_or(CardFetchError::CardNotFound { depth })?;
+                .ok_or(CardFetchError::CardNotFound { depth: depth + 1 })?;
         }
 
         Ok(card)
